@@ -857,6 +857,13 @@ def run_shape(desc, tier):
                 sub._key.created = sub._key.created + datetime.timedelta(seconds=1)
             if half == 'private' and not c.is_protected:
                 c.protect('only the copy', SymmetricKeyAlgorithm.AES128, HashAlgorithm.SHA256)
+            if half == 'private':
+                # ... and so is the derived public twin as far as its armor headers go (the key material is tied to the private half by design)
+                tw = obj.pubkey
+                tw.ascii_headers['Version'] = 'set on the public twin'
+                if 'Version' in obj.ascii_headers:
+                    problems.append('an armor header set on the derived public key shows up on the private key')
+                tw.ascii_headers.pop('Version', None)
             if bytes(obj) != E or dearmor(str(obj))[1] != E or 'Comment' in obj.ascii_headers:
                 problems.append('changing a copy of the %s key changed the original (export %s, headers %s)'
                                 % (half, 'differs' if bytes(obj) != E else 'same', dict(obj.ascii_headers)))
